@@ -74,6 +74,8 @@ func idleFitReq(c *Ctx, isTA *ssa.Function, flows []*flagFlow) Req {
 }
 
 func runC01(c *Ctx) {
+	borrow(c, "O8", "C13", "O5", "Commit does not call Discard", "a failing commit must not undo allocations whose bind requests were already emitted: the pods get bound while the session has freed their resources")
+
 	p := c.P
 	stmtAllocate := c.Anchor("O1", pkgFramework, "Statement", "Allocate")
 	isTA := c.Anchor("O1", pkgNodeInfo, "NodeInfo", "IsTaskAllocatable")
